@@ -411,12 +411,23 @@ RevertHead ==
           /\ res' = "ok"
           /\ UNCHANGED failed
 
+(* The process restarts: a new blockchain.Blockchain object (and with it new in-memory caches)
+   is opened on the same database, after a graceful stop (the running event filter snapshot is
+   written first) or without one.  On the abstract database it is a no-op, whenever it happens
+   (compare Flush / Reopen in spec/kv/KV.tla): RestartIsNoOp. *)
+Restart(graceful) ==
+  /\ failed = "no"
+  /\ act' = [name |-> "Restart", graceful |-> graceful]
+  /\ res' = "ok"
+  /\ UNCHANGED <<chain, truth, roots, ldb, ndb, cdb, failed>>
+
 (* exhaustive alphabet: every diff with at most MaxOps entries *)
 BoundedDiffs == UNION {kSubset(k, AllOps) : k \in 0..MaxOps}
 BoundedTxSeqs == {<<>>}
 Next ==
   \/ \E d \in BoundedDiffs, ver \in Vers : ApplyBlock(d, ver, <<>>)
   \/ RevertHead
+  \/ Restart(TRUE)
 Spec == Init /\ [][Next]_shvars
 
 --------------------------------------------------------------------------
@@ -474,6 +485,9 @@ Replay(k) ==
            b == chain[k] IN
        [l |-> UpdL(p.l, k - 1, b.ver, b.ops), n |-> UpdN(p.n, k - 1, b.ver, b.ops), c |-> UpdC(p.c, k - 1, b.ver, b.ops)]
 Canon == failed = "no" => [l |-> ldb, n |-> ndb, c |-> cdb] = Replay(NBlocks)
+
+(* C03 / C04: a restart changes nothing a reader can see, wherever it occurs *)
+RestartIsNoOp == [][act'.name = "Restart" => UNCHANGED <<chain, truth, roots, ldb, ndb, cdb, failed>>]_shvars
 
 TypeOK ==
   /\ Len(truth) = NBlocks /\ Len(roots) = NBlocks
